@@ -27,7 +27,7 @@ pub fn kg_of(s: Solver) -> f64 {
 const PROBLEMS12: [&str; 12] = ["lin+1", "lin-2", "logistic", "gauss", "cost", "relax", "bernoulli", "osc1", "rot2:lin-2+logistic", "rot2:cost+relax", "rot3:osc2.5+gauss", "rot4:osc1+logistic+bernoulli"];
 
 /// problems whose Lipschitz constant does not depend on the amplitude (linear in the state), run at large amplitude
-const LARGE: [&str; 8] = ["lin+1", "gauss", "osc1", "sum2:lin+1+rest", "sum2:rest+lin+1", "sum2:lin+1+lin-2", "rot2:cost+relax", "rot3:osc2.5+gauss"];
+const LARGE: [&str; 10] = ["lin+1", "gauss", "osc1", "sum2:lin+1+rest", "sum2:rest+lin+1", "sum2:bigrest+lin+1", "sum3:bigrest+osc1", "sum2:lin+1+lin-2", "rot2:cost+relax", "rot3:osc2.5+gauss"];
 
 fn ninf(a: &[f64]) -> f64 {
     a.iter().fold(0.0, |m, x| m.max(x.abs()))
@@ -121,6 +121,14 @@ impl Check for Local {
             for p in ["lin+1", "logistic", "osc1", "rot2:cost+relax"] {
                 for &tol in &[1e-3, 1e-4, 1e-5, 1e-6, 1e-7, 1e-8, 1e-9, 1e-10] {
                     v.push(LocalPt { solver, problem: p.to_string(), tol, c: 1.0, u0_scale: 1.0, end_sweep: None, at_cap: true });
+                }
+            }
+            // ... and with a large component at rest beside a moving one of amplitude 60 (the estimate has to see an error
+            // that is orthogonal to the state)
+            // (a bounded solution: a growing one of amplitude 60 e^3 is beyond what the property's cap formula covers)
+            for p in ["sum3:bigrest+osc1"] {
+                for &tol in &[1e-3, 1e-5, 1e-7, 1e-9] {
+                    v.push(LocalPt { solver, problem: p.to_string(), tol, c: 1.0, u0_scale: 60.0, end_sweep: None, at_cap: true });
                 }
             }
             // large minimum step x end times swept across one maximum step (the clipped final step and its neighbours)
@@ -590,7 +598,7 @@ impl Check for Global {
 #[derive(Serialize, Deserialize, Clone, Debug)]
 pub struct CplxPt {
     pub solver: Solver,
-    /// 0: y' = i w y (w = 1.5); 1: y' = (a + i b) y (a = -0.4, b = 2)
+    /// 0: y' = i w y (w = 1.5); 1: y' = (a + i b) y (a = -0.4, b = 2); 2: y' = y; 3: y' = -y; 4: y' = y^3
     pub which: usize,
     pub tol: f64,
     /// initial state: 0: 0.8 - 0.3i, 1: (1 + i)/sqrt 2 (error vector at 45 degrees), 2: i, 3: -40 + 40i, 4: 40i
@@ -604,15 +612,15 @@ impl Check for ComplexTwin {
         "complex-vs-real-twin"
     }
     fn rule(&self) -> String {
-        "complex problems y' = i w y, y' = (a+ib) y, y' = y and y' = -y x 5 initial states (generic, 45 degrees, purely imaginary, amplitude 57, purely imaginary of amplitude 40) x 7 solvers x tolerances (Euler: steps), each solved as a complex scalar and as the equivalent real 2x2 system; both must satisfy the global bound and the complex error may not exceed 4x the real one; signature = (solver, problem, tolerance)".into()
+        "complex problems y' = i w y, y' = (a+ib) y, y' = y, y' = -y and the non-linear y' = y^3 (3 initial states of modulus about 1) x 5 initial states (generic, 45 degrees, purely imaginary, amplitude 57, purely imaginary of amplitude 40) x 7 solvers x tolerances (Euler: steps), each solved as a complex scalar and as the equivalent real 2x2 system; both must satisfy the global bound and the complex error may not exceed 4x the real one; signature = (solver, problem, tolerance)".into()
     }
     fn points(&self, t: Tier) -> Vec<CplxPt> {
         let mut v = vec![];
         for &solver in &ALL_SOLVERS {
-            for which in 0..4 {
+            for which in 0..5 {
                 for &tol in &t.pick(vec![1e-4, 1e-8], vec![1e-3, 1e-5, 1e-7, 1e-9]) {
                     for z0 in 0..5 {
-                        if which >= 2 && z0 == 0 {
+                        if (which == 2 || which == 3) && z0 == 0 || which == 4 && z0 >= 3 {
                             continue;
                         }
                         v.push(CplxPt { solver, which, tol, z0 });
@@ -624,8 +632,13 @@ impl Check for ComplexTwin {
     }
     fn run(&self, p: &CplxPt) -> Outcome {
         let mut o = Outcome::new();
-        let lam = [C64::new(0.0, 1.5), C64::new(-0.4, 2.0), C64::new(1.0, 0.0), C64::new(-1.0, 0.0)][p.which];
-        let l = lam.norm();
+        let z0 = [C64::new(0.8, -0.3), C64::from_polar(1.0, std::f64::consts::FRAC_PI_4), C64::new(0.0, 1.0), C64::new(-40.0, 40.0), C64::new(0.0, 40.0)][p.z0];
+        // which = 4: the non-linear problem y' = y^3, y(t) = y0 / sqrt(1 - 2 y0^2 (t - t0)) (one Newton or secant pass of an
+        // implicit solve is not exact here; from y0 = i the motion is purely imaginary)
+        let cubic = p.which == 4;
+        let lam = [C64::new(0.0, 1.5), C64::new(-0.4, 2.0), C64::new(1.0, 0.0), C64::new(-1.0, 0.0), C64::new(0.0, 0.0)][p.which];
+        let cubic_exact = move |s: f64| z0 / (C64::new(1.0, 0.0) - 2.0 * z0 * z0 * s).sqrt();
+        let l = if cubic { 3.0 * (0..=64).map(|i| cubic_exact(0.6 * i as f64 / 64.0).norm_sqr()).fold(0.0, f64::max) } else { lam.norm() };
         let (t0, t1) = (0.3, 0.3 + 2.0 / l);
         let cfg = if p.solver == Solver::Euler {
             let h = p.tol.sqrt() / l;
@@ -634,20 +647,26 @@ impl Check for ComplexTwin {
             let dtmax = step_cap(p.solver, p.tol, l);
             Cfg { tol: p.tol, dtmin: 1e-7 * dtmax, dtmax, t0, t1 }
         };
-        let z0 = [C64::new(0.8, -0.3), C64::from_polar(1.0, std::f64::consts::FRAC_PI_4), C64::new(0.0, 1.0), C64::new(-40.0, 40.0), C64::new(0.0, 40.0)][p.z0];
-        let amp = z0.norm() * (lam.re.max(0.0) * (t1 - t0)).exp();
+        let amp = if cubic { (l / 3.0).sqrt() } else { z0.norm() * (lam.re.max(0.0) * (t1 - t0)).exp() };
         let cfg = if p.solver == Solver::Euler { cfg } else { let d = cfg.dtmax.min(unseen_cap(p.solver, p.tol, l, amp)); Cfg { dtmax: d, dtmin: 1e-7 * d, ..cfg } };
         let lim = Limits { max_calls: 60_000_000, max_items: 4_000_000, extra_next: 0 };
-        let rc: Rhs<C64> = Rc::new(move |_t, y| Ok(vec![lam * y[0]]));
+        let rc: Rhs<C64> = Rc::new(move |_t, y| Ok(vec![if cubic { y[0] * y[0] * y[0] } else { lam * y[0] }]));
         let oc = solve::<C64>(p.solver, DimMode::Static, &cfg, &[z0], rc, &lim);
-        let rr: Rhs<f64> = Rc::new(move |_t, y| Ok(vec![lam.re * y[0] - lam.im * y[1], lam.im * y[0] + lam.re * y[1]]));
+        let rr: Rhs<f64> = Rc::new(move |_t, y| {
+            Ok(if cubic {
+                let (u, v) = (y[0], y[1]);
+                vec![u * u * u - 3.0 * u * v * v, 3.0 * u * u * v - v * v * v]
+            } else {
+                vec![lam.re * y[0] - lam.im * y[1], lam.im * y[0] + lam.re * y[1]]
+            })
+        });
         let or = solve::<f64>(p.solver, DimMode::Static, &cfg, &[z0.re, z0.im], rr, &lim);
         let subj = subject(p.solver);
         if oc.panic.is_some() || or.panic.is_some() {
             o.viol(&subj, "no-panic", format!("{:?}: {:?} {:?}", p, oc.panic, or.panic));
             return o;
         }
-        let exact = |t: f64| z0 * (lam * (t - t0)).exp();
+        let exact = |t: f64| if cubic { cubic_exact(t - t0) } else { z0 * (lam * (t - t0)).exp() };
         let ec = oc.items.iter().map(|(t, y)| (y[0] - exact(*t)).norm()).fold(0.0, f64::max);
         let er = or.items.iter().map(|(t, y)| (C64::new(y[0], y[1]) - exact(*t)).norm()).fold(0.0, f64::max);
         let g = ((l * (t1 - t0)).exp() - 1.0) / l;
